@@ -248,6 +248,11 @@ func (r *runner) run(ctx context.Context, isStream bool, input any, opts ...Opti
 		if result != nil {
 			return result, nil
 		}
+
+		// interrupt-before also applies to the direct successors of START
+		if hit := getHitKey(nextTasks, r.interruptBeforeNodes); len(hit) > 0 {
+			return nil, r.handleInterrupt(ctx, hit, nil, nextTasks, cm.channels, isStream, isSubGraph, checkPointID)
+		}
 	} else {
 		ctx, input = onGraphStart(ctx, input, isStream)
 		haveOnStart = true
